@@ -93,6 +93,56 @@ func kf1Symptom(want []rtcp.Packet) ([]rtcp.Packet, bool) {
 	return out, any
 }
 
+// kf3SymptomList returns the expected list as known finding KF3 predicts it: every REMB whose
+// quantised bitrate is 0 (wire mantissa 0, exponent 0) comes back as 2^23. ok is false when the
+// list has no such REMB.
+func kf3SymptomList(want []rtcp.Packet) ([]rtcp.Packet, bool) {
+	out := make([]rtcp.Packet, len(want))
+	any := false
+	var fix func(p rtcp.Packet)
+	fix = func(p rtcp.Packet) {
+		switch v := p.(type) {
+		case *rtcp.ReceiverEstimatedMaximumBitrate:
+			if v.Bitrate == 0 {
+				v.Bitrate = 8388608
+				any = true
+			}
+		case *rtcp.CompoundPacket:
+			for _, m := range *v {
+				fix(m)
+			}
+		}
+	}
+	for i, p := range want {
+		out[i] = clonePacket(p)
+		fix(out[i])
+	}
+	return out, any
+}
+
+// cmpKF3 compares decoded packets with the expectation: 0 equal, 1 equal to exactly what known
+// finding KF3 predicts, 2 different from both.
+func cmpKF3(got, want []rtcp.Packet) int {
+	if mon.SemEqual(normList(got), normList(want)) {
+		return 0
+	}
+	if sym, any := kf3SymptomList(want); any && mon.SemEqual(normList(got), normList(sym)) {
+		return 1
+	}
+	return 2
+}
+
+// without drops one finding class from a list.
+func without(kfs []string, id string) []string {
+	var out []string
+	for _, k := range kfs {
+		if k != id {
+			out = append(out, k)
+		}
+	}
+	return out
+}
+
 // withoutKF1 drops KF1 from a finding list.
 func withoutKF1(kfs []string) []string {
 	var out []string
@@ -153,7 +203,9 @@ func c02Value(cs *core.Case, p rtcp.Packet) {
 	}
 	if derr != nil {
 		cs.Fail("own-decoder/error/"+k.String(), det(core.W{"error": errStr(derr)})(), kfs...)
-	} else if !mon.SemEqual(normXR(got), normXR(want)) {
+	} else if c3 := cmpKF3([]rtcp.Packet{got}, []rtcp.Packet{want}); c3 == 1 {
+		cs.Fail("own-decoder/value/"+k.String(), det(core.W{"decoded": vdump(got)})(), "KF3")
+	} else if c3 == 2 {
 		attributed := false
 		if wc, ok := want.(*rtcp.CompoundPacket); ok {
 			if sym, any := kf1Symptom([]rtcp.Packet(*wc)); any {
@@ -165,15 +217,18 @@ func c02Value(cs *core.Case, p rtcp.Packet) {
 					if kindsOK {
 						cs.Fail("own-decoder/value/"+k.String(), det(core.W{"decoded": vdump(got)})(), "KF1")
 						attributed = true
-						if !mon.SemEqual(normList([]rtcp.Packet(*gc)), normList(sym)) {
-							cs.Fail("own-decoder/value/"+k.String(), det(core.W{"decoded": vdump(got), "expected": vdump(sym)})(), withoutKF1(kfs)...)
+						switch cmpKF3([]rtcp.Packet(*gc), sym) {
+						case 1:
+							cs.Fail("own-decoder/value/"+k.String(), det(core.W{"decoded": vdump(got)})(), "KF3")
+						case 2:
+							cs.Fail("own-decoder/value/"+k.String(), det(core.W{"decoded": vdump(got), "expected": vdump(sym)})(), without(withoutKF1(kfs), "KF3")...)
 						}
 					}
 				}
 			}
 		}
 		if !attributed {
-			cs.Fail("own-decoder/value/"+k.String(), det(core.W{"decoded": vdump(got), "expected": vdump(want)})(), withoutKF1(kfs)...)
+			cs.Fail("own-decoder/value/"+k.String(), det(core.W{"decoded": vdump(got), "expected": vdump(want)})(), without(withoutKF1(kfs), "KF3")...)
 		}
 	}
 
@@ -226,8 +281,12 @@ func c02Value(cs *core.Case, p rtcp.Packet) {
 		}
 	}
 	dkfs = withoutKF1(dkfs)
-	if !mon.SemEqual(normList(ps), normList(wantList)) {
-		cs.Fail("datagram/value/"+k.String(), det(core.W{"decoded": vdump(ps), "expected": vdump(wantList)})(), dkfs...)
+	switch cmpKF3(ps, wantList) {
+	case 1:
+		cs.Fail("datagram/value/"+k.String(), det(core.W{"decoded": vdump(ps)})(), "KF3")
+		return
+	case 2:
+		cs.Fail("datagram/value/"+k.String(), det(core.W{"decoded": vdump(ps), "expected": vdump(wantList)})(), without(dkfs, "KF3")...)
 		return
 	}
 	// re-marshalling the decoded packets reproduces the same octets
@@ -292,7 +351,10 @@ func c02List(cs *core.Case, list []rtcp.Packet) {
 		cs.Fail("list/error", det(core.W{"error": errStr(uerr)}), kfs...)
 		return
 	}
-	if !mon.SemEqual(normList(ps), normList(want)) {
+	if c3 := cmpKF3(ps, want); c3 == 1 {
+		cs.Fail("list/value", det(core.W{"decoded": vdump(ps)}), "KF3")
+		return
+	} else if c3 == 2 {
 		sym, any := kf1Symptom(want)
 		kindsOK := any && len(ps) == len(sym)
 		for i := 0; kindsOK && i < len(sym); i++ {
@@ -300,12 +362,16 @@ func c02List(cs *core.Case, list []rtcp.Packet) {
 		}
 		if kindsOK {
 			cs.Fail("list/value", det(core.W{"decoded": vdump(ps)}), "KF1")
-			if !mon.SemEqual(normList(ps), normList(sym)) {
-				cs.Fail("list/value", det(core.W{"decoded": vdump(ps), "expected": vdump(sym)}), withoutKF1(kfs)...)
+			switch cmpKF3(ps, sym) {
+			case 1:
+				cs.Fail("list/value", det(core.W{"decoded": vdump(ps)}), "KF3")
+				return
+			case 2:
+				cs.Fail("list/value", det(core.W{"decoded": vdump(ps), "expected": vdump(sym)}), without(withoutKF1(kfs), "KF3")...)
 				return
 			}
 		} else {
-			cs.Fail("list/value", det(core.W{"decoded": vdump(ps), "expected": vdump(want)}), withoutKF1(kfs)...)
+			cs.Fail("list/value", det(core.W{"decoded": vdump(ps), "expected": vdump(want)}), without(withoutKF1(kfs), "KF3")...)
 			return
 		}
 	}
